@@ -60,6 +60,9 @@ CLAIMED['C10'] = ('irsym', 'engine C: bounded symbolic execution of the clang IR
 CLAIMED['C19'] = ('ir2c', 'bounded model checking (CBMC) of the clang IR of PyImath::FixedArray<int> (compiled against the real Python.h / boost.python headers) translated to C, array objects built as arbitrary valid struct state; counterexamples replayed through an embedded-CPython driver on the real headers',
     'From EVERY valid FixedArray<int> state up to the bound (length 0..3, stride 1..2, writable or not, direct or masked with arbitrary increasing mask indices, arbitrary contents; 4 in the thorough tier): integer indexing incl. negative and out-of-range indices, slice assignment against CPython\'s own PySlice_AdjustIndices semantics, array and mask assignment with length checks, every writer entry point on a read-only array (operator[], direct_index, setitem_*, Writable{Direct,Masked}Access) raises and leaves the data unchanged, accessor classes, match_dimension, makeReadOnly; every memory access is inside the exactly-sized backing store (CBMC bounds and pointer checks).',
     'Trusted: clang-14, vf/ll2c.py, CBMC. CPython/boost externals are stubs listed in the evidence (PySlice_AdjustIndices is a transcription of CPython\'s algorithm). No translator validation for this TU (pointer-rich objects); instead every counterexample is replayed natively with real Python objects. View lifetimes, StringTable, FixedVArray/2D/Matrix, getslice allocation and the buffer protocol are not decided.', '3/C19')
+CLAIMED['C20'] = ('ir2c', 'bounded model checking (CBMC) of the clang IR of the real PyImath task classes (built by the wrapper as VectorizedFunctionN::apply builds them) translated to C: one execute(start,end) call with symbolic sub-range from arbitrary valid array states',
+    'For each generic task template (VectorizedOperation1/2/3, VectorizedVoidOperation0/1/2, VectorizedMaskedVoidOperation1) in 26 accessor-kind combinations (direct / masked / scalar) and for the hand-written Box IntersectsTask: for EVERY sub-range [start,end) of [0,L), L <= 2 (4 thorough), result[i] == op(args[i]) exactly on the sub-range, every other element of the result store, the guard zones and all argument arrays untouched; tasks cannot be built on read-only or wrong-kind arrays; mismatched argument lengths raise before any access. Partition / order / concurrency independence follows by the stated pen-and-paper step (disjoint write frames, read-only arguments).',
+    'Trusted: clang-14, vf/ll2c.py, CBMC. Counterexamples are replayed natively against the g++-built real task classes. dispatchTask/WorkerPool (virtual dispatch), the binding glue, GIL and real threads, floating-point hand-written tasks and other element types are not decided.', '3/C20')
 NOT_YET = 'check not built yet in this working session (planned in DESIGN.md section 3); no claim is made'
 NA = {}
 
